@@ -95,6 +95,37 @@ theorem Count_eq (amounts : List UInt64) (amount : UInt64) :
   · intro _ x s
     by_cases h : (x == amount) = true <;> simp [h]
 
+/-! ## cashu/cashu.go: TokenV3.Proofs / TokenV3.Amount (C14) -/
+
+/-- the proofs of a V3 token are the proofs of its entries, in order -/
+theorem TokenV3_Proofs_eq (t : TokenV3) : TokenV3_Proofs t = t.Token.flatMap (·.Proofs) := by
+  unfold TokenV3_Proofs
+  dsimp only
+  rw [rangeLoop_fold _ (fun (acc : List Proof) (tp : TokenV3Proof) => acc ++ tp.Proofs) (fun _ _ _ => rfl)]
+  simp only
+  suffices h : ∀ (acc : List Proof), t.Token.foldl (fun acc tp => acc ++ tp.Proofs) acc = acc ++ t.Token.flatMap (·.Proofs) by
+    simpa using h []
+  generalize t.Token = l
+  induction l with
+  | nil => intro acc; simp
+  | cons x xs ih => intro acc; simp [ih, List.append_assoc]
+
+/-- the amount of a V3 token is the (wrapping) sum over all its proofs -/
+theorem TokenV3_Amount_eq (t : TokenV3) :
+    TokenV3_Amount t = amountWrap ((TokenV3_Proofs t).map (·.Amount)) := by
+  rw [TokenV3_Proofs_eq]
+  unfold TokenV3_Amount
+  dsimp only
+  rw [rangeLoop_fold _ (fun (s : UInt64) (tp : TokenV3Proof) => tp.Proofs.foldl (fun s p => s + p.Amount) s)]
+  · simp only [amountWrap, List.foldl_map]
+    generalize (0 : UInt64) = acc
+    generalize t.Token = l
+    induction l generalizing acc with
+    | nil => rfl
+    | cons x xs ih => simp [List.flatMap_cons, List.foldl_append, ih]
+  · intro i tp s
+    simp only [rangeLoop_fold _ (fun (s : UInt64) (p : Proof) => s + p.Amount) (fun _ _ _ => rfl)]
+
 /-! ## fees: wallet/wallet.go, mint/mint.go -/
 theorem foldl_replicate_unit (ppk : UInt64) (n : Nat) (s : UInt64) :
     (List.replicate n ()).foldl (fun s _ => s + ppk) s = (List.replicate n ppk).foldl (· + ·) s := by
